@@ -43,11 +43,13 @@ class Exec {
   bm::Model md_before;                    // model state before the operation
   std::vector<size_t> cursor_before;      // per client: got_checked before the operation
   std::vector<size_t> next_sent_before;
+  std::vector<std::set<size_t>> answered_before;   // taken when the operation step ran (a failed reply is not an answer)
   int oom_client = -1;                    // who issued the operation
   core::Step oom_op;                      // the operation step (for the retry)
   bool oom_op_valid = false;
   std::string oom_outcome;                // "complete" | "nomemory"
   void resolve_oom();
+  void check_state_whitebox(const char *when);
 
   int pick(int a) const;
   std::string resolve_name(const std::string &s);
